@@ -8,7 +8,7 @@ from checks_config import CHECKS, TRUSTED_BASE, PENDING
 props = [json.loads(l)["id"] for l in open(os.path.join(ROOT, "properties.jsonl"))]
 checks = []
 for pid in props:
-    if pid not in CHECKS: continue
+    if pid not in CHECKS or pid in PENDING: continue
     c = CHECKS[pid]
     checks.append({
         "property_id": pid,
@@ -22,7 +22,7 @@ for pid in props:
         "technique": c["technique"],
     })
 na = [{"property_id": pid, "reason": PENDING.get(pid, "check not built yet in this round (planned: DESIGN.md section 3)")}
-      for pid in props if pid not in CHECKS]
+      for pid in props if pid not in CHECKS or pid in PENDING]
 m = {
     "version": 1,
     "setup_cmd": "./setup.sh",
